@@ -1,6 +1,7 @@
 import PeliteModel.Driver.Image
-import PeliteModel.Model.Json
-/-! Driver handlers: `jsonsub <k>` (the modelled subset of the JSON rendering), `json <k>`
+import PeliteModel.Model.JsonDirs
+/-! Driver handlers: `jsonsub <k>` (the modelled subset of the header part of the JSON rendering),
+`jsonsub <k> <field>` (one top-level member of the document, whole, as canonical text), `json <k>`
 (outcome class only), `relocs <k> dump` (image-level base relocations). -/
 namespace Pelite.Driver
 open Pelite.Proto Pelite.Pe
@@ -19,6 +20,44 @@ def jsonSub (img : Option Img) (k : String) : String :=
     let dds := join (h.detDdSections.map fun o => match o with | some i => toString i | none => "-")
     s!"ok dos.e_lfanew={h.eLfanew} fh.nsec={h.numberOfSections} fh.soh={h.sizeOfOptionalHeader} opt.magic={h.magic} opt.code={h.baseOfCode}+{h.sizeOfCode} opt.base={h.imageBase} opt.soi={h.sizeOfImage} opt.soh={h.sizeOfHeaders} opt.csum={h.checkSumField} opt.nrva={h.numberOfRvaAndSizes} dd=[{dd}] sec=[{sec}] det.csum={h.detCheckSum} det.ddsec=[{dds}] relocs={relocsText v}"
 
+/-! ### canonical text of a `Json` value (harness/src/ops_json.rs `canon` prints the same for the real document) -/
+
+def safeByte (b : Nat) : Bool :=
+  (48 ≤ b && b ≤ 57) || (65 ≤ b && b ≤ 90) || (97 ≤ b && b ≤ 122) ||
+  b == 95 || b == 46 || b == 36 || b == 64 || b == 43 || b == 35 || b == 45        -- _ . $ @ + # -
+
+/-- `'text` for a non-empty string over [A-Za-z0-9_.$@+#-], else `x<hex of the bytes>` -/
+def strTok (s : List Nat) : String :=
+  if !s.isEmpty && s.all safeByte then "'" ++ String.ofList (s.map Char.ofNat)
+  else "x" ++ String.ofList (s.flatMap fun b => [hexDigit (b / 16), hexDigit (b % 16)])
+
+mutual
+def canon : Json → String
+  | .null => "null"
+  | .bool b => if b then "true" else "false"
+  | .num n => toString n
+  | .str s => strTok s
+  | .arr xs => "[" ++ join (canonElems xs) ++ "]"
+  | .obj kvs => "{" ++ join (canonMembers kvs) ++ "}"
+def canonElems : List Json → List String
+  | [] => []
+  | x :: rest => canon x :: canonElems rest
+def canonMembers : List (List Nat × Json) → List String
+  | [] => []
+  | (k, v) :: rest => (strTok k ++ ":" ++ canon v) :: canonMembers rest
+end
+
+/-- `jsonsub <k> <field>`: the whole document is serialized (a panic anywhere is a panic of every
+field, as in the Rust code), then the named member is printed -/
+def jsonField (img : Option Img) (k field : String) : String :=
+  withView img k fun v =>
+    match v.serializePe with
+    | .ok doc =>
+      (match doc.toJson.field field with
+       | some j => "ok " ++ canon j
+       | none => "missing")
+    | o => outStr (fun _ => "") o
+
 def relocsDump (img : Option Img) (k : String) : String :=
   withView img k fun v =>
     match v.baseRelocsRef, v.baseRelocsBytes with
@@ -31,6 +70,7 @@ def relocsDump (img : Option Img) (k : String) : String :=
 def dispatchJson : Handler := fun st fam a =>
   match fam, a with
   | "jsonsub", [k] => some (jsonSub st.img k)
+  | "jsonsub", [k, field] => some (jsonField st.img k field)
   | "json", [k] => some (withView st.img k fun _ => "ok")
   | "relocs", [k, "dump"] => some (relocsDump st.img k)
   | _, _ => none
